@@ -401,6 +401,23 @@ fn body_of_answer(c: &TraitCase, self_name: &str) -> String {
             _ => {}
         }
     }
+    // receiver identity: the answer (or real) function must get the caller's own receiver
+    let addr = "std::sync::atomic::Ordering::SeqCst";
+    match c.recv {
+        Recv::Ref => s.push_str(&format!(
+            "        log(format!(\"RECV|{{}}\", ({self_name} as *const Unimock as usize) == EXPECT_ADDR.load({addr})));\n"
+        )),
+        Recv::Mut | Recv::PinMut | Recv::Boxed => s.push_str(&format!(
+            "        log(format!(\"RECV|{{}}\", (&*{self_name} as *const Unimock as usize) == EXPECT_ADDR.load({addr})));\n"
+        )),
+        Recv::Rc => s.push_str(&format!(
+            "        log(format!(\"RECV|{{}}|{{}}\", (&*{self_name} as *const Unimock as usize) == EXPECT_ADDR.load({addr}), std::rc::Rc::strong_count(&{self_name})));\n"
+        )),
+        Recv::Arc => s.push_str(&format!(
+            "        log(format!(\"RECV|{{}}|{{}}\", (&*{self_name} as *const Unimock as usize) == EXPECT_ADDR.load({addr}), std::sync::Arc::strong_count(&{self_name})));\n"
+        )),
+        Recv::Value => {}
+    }
     let ret = match c.ret {
         Ret::Unit => "()".to_string(),
         Ret::U32 => "h".to_string(),
@@ -412,7 +429,14 @@ fn body_of_answer(c: &TraitCase, self_name: &str) -> String {
         Ret::RefParam(k) => format!("a{k}"),
         Ret::Generic => "h as u16".to_string(),
     };
-    s.push_str(&format!("        {ret}\n"));
+    if c.recv == Recv::Value {
+        // a by-value receiver must be the original instance itself: verify() refuses clones
+        s.push_str(&format!(
+            "        let ret_value = {ret};\n        let is_original = std::panic::catch_unwind(std::panic::AssertUnwindSafe(move || {self_name}.verify())).is_ok();\n        log(format!(\"RECV|{{}}\", is_original));\n        ret_value\n"
+        ));
+    } else {
+        s.push_str(&format!("        {ret}\n"));
+    }
     s
 }
 
@@ -431,7 +455,7 @@ pub fn source(c: &TraitCase) -> String {
         ""
     };
     let mut s = String::new();
-    s.push_str("static LOG: Mutex<Vec<String>> = Mutex::new(Vec::new());\nfn log(s: String) { LOG.lock().unwrap().push(s) }\nfn take() -> Vec<String> { std::mem::take(&mut *LOG.lock().unwrap()) }\n\n");
+    s.push_str("static LOG: Mutex<Vec<String>> = Mutex::new(Vec::new());\nfn log(s: String) { LOG.lock().unwrap().push(s) }\nfn take() -> Vec<String> { std::mem::take(&mut *LOG.lock().unwrap()) }\nstatic EXPECT_ADDR: std::sync::atomic::AtomicUsize = std::sync::atomic::AtomicUsize::new(0);\n\n");
     // attribute
     let total = c.before + 1 + c.after + c.twin as usize;
     let attr = match c.api {
@@ -594,29 +618,41 @@ pub fn source(c: &TraitCase) -> String {
     };
     let mut lazy = "n/a".to_string();
     let _ = &mut lazy;
+    let store = "std::sync::atomic::Ordering::SeqCst";
+    let recv_arg: String = match c.recv {
+        Recv::Ref | Recv::Mut | Recv::PinMut => {
+            s.push_str(&format!("    EXPECT_ADDR.store(&u as *const Unimock as usize, {store});\n"));
+            c.recv_expr().to_string()
+        }
+        Recv::Boxed | Recv::Rc | Recv::Arc => {
+            s.push_str(&format!("    let rv = {};\n    EXPECT_ADDR.store(&*rv as *const Unimock as usize, {store});\n", c.recv_expr()));
+            "rv".to_string()
+        }
+        Recv::Value => c.recv_expr().to_string(),
+    };
     if c.asy == Asy::Sync {
         s.push_str(&format!(
             "    let r = {};\n    let ret = format!(\"{{:?}}\", r);\n",
-            call(c.recv_expr())
+            call(&recv_arg)
         ));
         s.push_str("    let lazy = \"n/a\".to_string();\n");
     } else if matches!(c.recv, Recv::Ref | Recv::Mut | Recv::PinMut) {
         // laziness: create + drop the future unpolled, nothing may have been evaluated
         s.push_str(&format!(
             "    {{ let fut = {}; drop(fut); }}\n",
-            call(c.recv_expr())
+            call(&recv_arg)
         ));
         s.push_str("    let lazy = format!(\"{}\", take().len());\n");
         // undo possible mutation effects are impossible here: nothing ran
         s.push_str(&format!(
             "    let r = block_on({});\n    let ret = format!(\"{{:?}}\", r);\n",
-            call(c.recv_expr())
+            call(&recv_arg)
         ));
     } else {
         s.push_str("    let lazy = \"n/a\".to_string();\n");
         s.push_str(&format!(
             "    let r = block_on({});\n    let ret = format!(\"{{:?}}\", r);\n",
-            call(c.recv_expr())
+            call(&recv_arg)
         ));
     }
     let muts: Vec<String> = c
@@ -655,6 +691,10 @@ pub fn judge(c: &TraitCase, line: &str) -> Result<CaseInfo, String> {
         expected_log.push(c.arg_string("M", true));
     }
     expected_log.push(c.arg_string("A", false));
+    expected_log.push(match c.recv {
+        Recv::Rc | Recv::Arc => "RECV|true|1".to_string(),
+        _ => "RECV|true".to_string(),
+    });
     let sig = c.method_sig(true);
     if log != expected_log {
         return Err(format!(
